@@ -161,6 +161,9 @@ CHECKS = {
             plain("known", "TestKnown",
                   {"shards": 1, "timeout": 120},
                   {"shards": 1, "timeout": 120}),
+            plain("gated", "TestGated",
+                  {"shards": 3, "timeout": 200},
+                  {"shards": 3, "timeout": 200}, replay_test="TestReplayGate"),
         ],
     },
     "C09": {
